@@ -288,3 +288,20 @@ func Permute(ch []*dt.Node, perm []int) []*dt.Node {
 	}
 	return out
 }
+
+// KeyUsageBits encodes a keyUsage BIT STRING from a 16-bit mask whose most significant bit is named bit 0
+// (digitalSignature) - DER: trailing zero bits removed, unused-bits count set.
+func KeyUsageBits(mask uint16) *dt.Node {
+	b := []byte{byte(mask >> 8), byte(mask)}
+	for len(b) > 0 && b[len(b)-1] == 0 {
+		b = b[:len(b)-1]
+	}
+	if len(b) == 0 {
+		return dt.Prim(0, 3, []byte{0})
+	}
+	unused := 0
+	for last := b[len(b)-1]; last&1 == 0; last >>= 1 {
+		unused++
+	}
+	return dt.Prim(0, 3, append([]byte{byte(unused)}, b...))
+}
